@@ -71,7 +71,15 @@ def replay(native, v):
     r = subprocess.run(args, cwd=work, env=e, capture_output=True)
     after = snap()
     changed = sorted(k for k in set(before) | set(after) if before.get(k) != after.get(k))
-    allowed = {'a.txt', 't.tmp'}
+    from spec import pp as specpp
+    from .common import ConcreteCtx
+    srcb = ppreplay.conc(d['source'], model)
+    if mode == 'Clean':
+        targs = specpp.temp_targets_all(ConcreteCtx(), tuple(srcb))
+    else:
+        sres, senv = ppreplay.spec_concrete(d, model, True)
+        targs = [a for a, _ in sres.temps]
+    allowed = {'a.txt'} | {bytes(a).decode() for a in targs}
     bad = any(k not in allowed for k in changed)
     if mode == 'Verify' and 'a.txt' in changed:
         bad = True
